@@ -9,6 +9,8 @@ package main
 //
 //	CLOSE <conn>     the connection ends (trace line "X <conn>": the model forgets its selection);
 //	                 a later use of the same or another id opens a new connection
+//	PIPE ... FLUSH   the C lines in between are pipelined: per connection one Write with all its
+//	                 commands, then all replies read in order (sleep and @T fields are not used)
 //	PAR ... JOIN     the C lines in between run concurrently, one goroutine per connection id
 //	                 (traced per connection, in order of first appearance)
 //	ALIGN <ms>       sleep until the clock's millisecond-within-the-second equals <ms>
@@ -272,6 +274,81 @@ func memxCmd(args []string) error {
 	}
 	inPar := false
 	var parLines [][]string
+	inPipe := false
+	var pipeLines [][]string
+	// PIPE ... FLUSH: per connection (in order of first appearance) all its buffered commands are
+	// sent in ONE Write, as a pipelining client does, and only then the replies are read, in order.
+	// (The write runs in a goroutine of its own: a net.Pipe has no buffer, the server may have to
+	// write the first replies before it has read the last command.)  Clock of command i in the
+	// trace: the instant reply i-1 arrived, which under faketime is the instant command i starts.
+	// Modes handle and tcp; in mode view the commands run one by one.
+	flushPipe := func() error {
+		lines := pipeLines
+		inPipe, pipeLines = false, nil
+		if len(lines) == 0 {
+			return nil
+		}
+		order := []string{}
+		byConn := map[string][][]string{}
+		for _, l := range lines {
+			if _, ok := byConn[l[1]]; !ok {
+				order = append(order, l[1])
+			}
+			byConn[l[1]] = append(byConn[l[1]], l)
+		}
+		for _, id := range order {
+			if mode == "view" {
+				for _, l := range byConn[id] {
+					line, err := doCmd(l)
+					if err != nil {
+						return err
+					}
+					w.WriteString(line)
+				}
+				continue
+			}
+			c, err := getConn(id)
+			if err != nil {
+				return err
+			}
+			var wire []byte
+			cmds := make([][][]byte, 0, len(byConn[id]))
+			for _, l := range byConn[id] {
+				cmd := make([][]byte, 0, len(l)-3)
+				for _, h := range l[3:] {
+					cmd = append(cmd, unhx(h))
+				}
+				cmds = append(cmds, cmd)
+				wire = append(wire, wireCommand(cmd)...)
+			}
+			if mode == "tcp" {
+				c.c.SetDeadline(time.Now().Add(30 * time.Second))
+			}
+			werr := make(chan error, 1)
+			go func() { _, e := c.c.Write(wire); werr <- e }()
+			at := time.Now()
+			for i, cmd := range cmds {
+				out, err := readWire(c.r)
+				if err != nil {
+					out = "!READERR(" + err.Error() + ")"
+				}
+				name := ""
+				if len(cmd) > 0 {
+					name = strings.ToLower(string(cmd[0]))
+				}
+				out = canonForCmd(name, out)
+				done := time.Now()
+				if mode == "tcp" {
+					fmt.Fprintf(w, "S %d %d %s %s | %s | %d\n", at.Unix(), at.UnixMilli(), id, strings.Join(byConn[id][i][3:], " "), out, done.UnixMilli())
+				} else {
+					fmt.Fprintf(w, "S %d %d %s %s | %s\n", at.Unix(), at.UnixMilli(), id, strings.Join(byConn[id][i][3:], " "), out)
+				}
+				at = done
+			}
+			<-werr
+		}
+		return nil
+	}
 
 	for sc.Scan() {
 		fs := strings.Fields(sc.Text())
@@ -310,11 +387,22 @@ func memxCmd(args []string) error {
 				parLines = append(parLines, fs)
 				continue
 			}
+			if inPipe {
+				pipeLines = append(pipeLines, fs)
+				continue
+			}
 			line, err := doCmd(fs)
 			if err != nil {
 				return err
 			}
 			w.WriteString(line)
+		case "PIPE":
+			// the C lines up to FLUSH are pipelined: see flushPipe
+			inPipe = true
+		case "FLUSH":
+			if err := flushPipe(); err != nil {
+				return err
+			}
 		case "PAR":
 			// the C lines up to JOIN: one goroutine per connection id, all released together
 			inPar, parLines = true, nil
@@ -389,6 +477,9 @@ func memxCmd(args []string) error {
 			// defensive walk: a nil entry of mgr.DBs is reported as a NOTE line, never a crash
 			dumpDBs(w, mgr)
 		case "END":
+			if err := flushPipe(); err != nil {
+				return err
+			}
 			closeConns()
 			fmt.Fprintf(w, "END\n")
 		}
